@@ -1,3 +1,440 @@
-(* C19: lemmas (stub). *)
-From Coq Require Import ZArith List Bool String Ascii.
-From NV Require Import C19_Model.
+(* C19: lemmas.  The property theorems proper are restated in C19_Props.v. *)
+From Coq Require Import ZArith Lia List Bool String Ascii.
+From NV Require Import Gen.Gen_Affinity C19_Model.
+Import ListNotations.
+Open Scope string_scope.
+
+(* ------------------------------------------------------------------ strings *)
+
+Lemma split_on_nosep sep k : contains_char sep k = false -> split_on sep k = [k].
+Proof.
+  induction k as [|c k IH]; cbn; [reflexivity|].
+  intros H. apply orb_false_elim in H. destruct H as [Hc Hk].
+  rewrite Hc. rewrite (IH Hk). reflexivity.
+Qed.
+
+Lemma split_on_app sep k r : contains_char sep k = false ->
+  split_on sep (k ++ String sep r) = k :: split_on sep r.
+Proof.
+  induction k as [|c k IH]; cbn.
+  - intros _. rewrite Ascii.eqb_refl. reflexivity.
+  - intros H. apply orb_false_elim in H. destruct H as [Hc Hk].
+    rewrite Hc. rewrite (IH Hk). reflexivity.
+Qed.
+
+Lemma join_cons sep x y t : join sep (x :: y :: t) = x ++ sep ++ join sep (y :: t).
+Proof. reflexivity. Qed.
+
+Lemma split_join sep ks : ks <> [] -> Forall (fun k => contains_char sep k = false) ks ->
+  split_on sep (join (String sep "") ks) = ks.
+Proof.
+  induction ks as [|x t IH]; [congruence|].
+  intros _ HF. inversion HF as [|? ? Hx Ht]; subst.
+  destruct t as [|y t].
+  - cbn. apply split_on_nosep. exact Hx.
+  - rewrite join_cons. cbn [append].
+    rewrite (split_on_app sep x _ Hx). f_equal. apply IH; [congruence|exact Ht].
+Qed.
+
+Lemma existsb_map {A B} (f : A -> B) p l : existsb p (map f l) = existsb (fun x => p (f x)) l.
+Proof. induction l as [|a l IH]; cbn; [reflexivity|]. rewrite IH. reflexivity. Qed.
+
+Lemma find_app_first {A} (p : A -> bool) l1 d l2 :
+  (forall x, List.In x l1 -> p x = false) -> p d = true -> find p (l1 ++ d :: l2)%list = Some d.
+Proof.
+  induction l1 as [|a l1 IH]; cbn; intros Hn Hd.
+  - rewrite Hd. reflexivity.
+  - rewrite (Hn a (or_introl eq_refl)). apply IH; [|exact Hd]. intros x Hx. apply Hn. right. exact Hx.
+Qed.
+
+Lemma find_none_all {A} (p : A -> bool) l : (forall x, List.In x l -> p x = false) -> find p l = None.
+Proof.
+  induction l as [|a l IH]; cbn; intros Hn; [reflexivity|].
+  rewrite (Hn a (or_introl eq_refl)). apply IH. intros x Hx. apply Hn. right. exact Hx.
+Qed.
+
+(* ------------------------------------------------------------------ expressions *)
+
+Section WithStdlib.
+  Context (glob : string -> string -> bool * bool) (clean : string -> string).
+
+  Notation evaluate := (evaluate glob clean).
+  Notation key_value := (key_value clean).
+  Notation resolve_ref := (resolve_ref clean).
+  Notation namespace_matches := (namespace_matches glob).
+  Notation choose := (choose glob clean).
+  Notation choose_in := (choose_in glob clean).
+  Notation any_expr := (any_expr glob clean).
+
+  Lemma in_notin_dual k vs s :
+    evaluate (Expr k NotIn vs) s = option_map negb (evaluate (Expr k In vs) s) /\
+    evaluate (Expr k In vs) s = option_map negb (evaluate (Expr k NotIn vs) s).
+  Proof.
+    unfold C19_Model.evaluate; cbn. destruct (C19_Model.key_value clean k s) as [v ok].
+    cbn. rewrite negb_involutive. split; reflexivity.
+  Qed.
+
+  Lemma matches_dual k vs s :
+    evaluate (Expr k MatchesNot vs) s = option_map negb (evaluate (Expr k Matches vs) s) /\
+    evaluate (Expr k Matches vs) s = option_map negb (evaluate (Expr k MatchesNot vs) s).
+  Proof.
+    unfold C19_Model.evaluate; cbn. destruct (C19_Model.key_value clean k s) as [v ok].
+    destruct ok; destruct vs as [|v0 vs]; cbn; try rewrite negb_involutive; split; reflexivity.
+  Qed.
+
+  Lemma matchesany_none_dual k vs s :
+    evaluate (Expr k MatchesNone vs) s = option_map negb (evaluate (Expr k MatchesAny vs) s) /\
+    evaluate (Expr k MatchesAny vs) s = option_map negb (evaluate (Expr k MatchesNone vs) s).
+  Proof.
+    unfold C19_Model.evaluate; cbn. destruct (C19_Model.key_value clean k s) as [v ok].
+    cbn. rewrite negb_involutive. split; reflexivity.
+  Qed.
+
+  Lemma exists_dual k vs s :
+    evaluate (Expr k NotExist vs) s = option_map negb (evaluate (Expr k Exists vs) s) /\
+    evaluate (Expr k Exists vs) s = option_map negb (evaluate (Expr k NotExist vs) s).
+  Proof.
+    unfold C19_Model.evaluate; cbn. destruct (C19_Model.key_value clean k s) as [v ok].
+    cbn. rewrite negb_involutive. split; reflexivity.
+  Qed.
+
+  (* documented meaning of the operators in terms of the key's value *)
+  Lemma in_loop_existsb value vs acc :
+    fold_left (fun r v => if (value =? v) || (v =? "*") then true else r) vs acc =
+    acc || existsb (fun v => (value =? v) || (v =? "*")) vs.
+  Proof.
+    revert acc. induction vs as [|v vs IH]; intros acc; cbn.
+    - rewrite orb_false_r. reflexivity.
+    - rewrite IH. destruct ((value =? v) || (v =? "*")); cbn.
+      + rewrite orb_true_r. reflexivity.
+      + reflexivity.
+  Qed.
+
+  Lemma in_spec k vs s :
+    evaluate (Expr k In vs) s =
+    Some (snd (key_value k s) && existsb (fun v => (fst (key_value k s) =? v) || (v =? "*")) vs).
+  Proof.
+    unfold C19_Model.evaluate; cbn. destruct (C19_Model.key_value clean k s) as [v ok]. cbn.
+    unfold in_loop. rewrite in_loop_existsb. destruct ok; reflexivity.
+  Qed.
+
+  Lemma matchesany_spec k vs s :
+    evaluate (Expr k MatchesAny vs) s =
+    Some (snd (key_value k s) && existsb (fun p => fst (glob p (fst (key_value k s)))) vs).
+  Proof.
+    unfold C19_Model.evaluate; cbn. destruct (C19_Model.key_value clean k s) as [v ok]. cbn.
+    destruct ok; reflexivity.
+  Qed.
+
+  Lemma exists_spec k s : evaluate (Expr k Exists []) s = Some (snd (key_value k s)).
+  Proof.
+    unfold C19_Model.evaluate; cbn. destruct (C19_Model.key_value clean k s) as [v ok]. reflexivity.
+  Qed.
+
+  Lemma equals_spec k v0 s :
+    evaluate (Expr k Equals [v0]) s = Some (snd (key_value k s) && ((fst (key_value k s) =? v0) || (v0 =? "*"))).
+  Proof.
+    unfold C19_Model.evaluate; cbn. destruct (C19_Model.key_value clean k s) as [v ok]. destruct ok; reflexivity.
+  Qed.
+
+  Lemma matches_spec k p s :
+    evaluate (Expr k Matches [p]) s = Some (snd (key_value k s) && fst (glob p (fst (key_value k s)))).
+  Proof.
+    unfold C19_Model.evaluate; cbn. destruct (C19_Model.key_value clean k s) as [v ok]. destruct ok; reflexivity.
+  Qed.
+
+  (* ---------------------------------------------------------------- joint keys *)
+
+  Definition joint_value (vsep : ascii) (ks : list string) (s : subject) : string * bool :=
+    (join (String vsep "") (map (fun k => dflt_str (resolve_ref s k)) ks),
+     existsb (fun k => is_some (resolve_ref s k)) ks).
+
+  Lemma key_value_of_split ks vsep s : ks <> [] ->
+    match ks with
+    | [k] => match resolve_ref s k with Some v => (v, true) | None => ("", false) end
+    | _ => (join (String vsep "") (map dflt_str (map (resolve_ref s) ks)), existsb is_some (map (resolve_ref s) ks))
+    end = joint_value vsep ks s.
+  Proof.
+    intros Hne. unfold joint_value. destruct ks as [|k [|k2 t]]; [congruence| |].
+    - cbn [map join existsb]. destruct (resolve_ref s k); reflexivity.
+    - rewrite map_map, existsb_map. reflexivity.
+  Qed.
+
+  Lemma joint_full ksep vsep ks s :
+    valid_separator ksep = true -> valid_separator vsep = true ->
+    ks <> [] -> Forall (fun k => contains_char ksep k = false) ks ->
+    join (String ksep "") ks <> "" ->
+    key_value (String ":" (String ksep (String vsep (join (String ksep "") ks)))) s = joint_value vsep ks s.
+  Proof.
+    intros Hk Hv Hne HF Hj.
+    pose proof (split_join ksep ks Hne HF) as Hs.
+    unfold C19_Model.key_value, split_keys.
+    destruct (join (String ksep "") ks) as [|c3 rest] eqn:E; [congruence|].
+    rewrite Ascii.eqb_refl, Hk, Hv. cbn [andb]. rewrite Hs.
+    pose proof (key_value_of_split ks vsep s Hne) as K.
+    destruct ks as [|k [|k2 t]]; [congruence| exact K | exact K].
+  Qed.
+
+  Lemma joint_simple ks s k v c3 rest :
+    ks <> [] -> Forall (fun k => contains_char ":" k = false) ks ->
+    join ":" ks = String k (String v (String c3 rest)) ->
+    valid_separator k && valid_separator v = false ->
+    key_value (String ":" (join ":" ks)) s = joint_value ":" ks s.
+  Proof.
+    intros Hne HF E Hsep.
+    pose proof (split_join ":" ks Hne HF) as Hs.
+    unfold C19_Model.key_value, split_keys.
+    rewrite E in *. rewrite Ascii.eqb_refl, Hsep. rewrite Hs.
+    pose proof (key_value_of_split ks ":" s Hne) as K.
+    destruct ks as [|k1 [|k2 t]]; [congruence| exact K | exact K].
+  Qed.
+
+  (* ":" ++ keylist is equivalent to ":::" ++ keylist *)
+  Lemma joint_simple_equiv ks s k v c3 rest :
+    ks <> [] -> Forall (fun k => contains_char ":" k = false) ks ->
+    join ":" ks = String k (String v (String c3 rest)) ->
+    valid_separator k && valid_separator v = false ->
+    key_value (String ":" (join ":" ks)) s = key_value (String ":" (String ":" (String ":" (join ":" ks)))) s.
+  Proof.
+    intros Hne HF E Hsep.
+    rewrite (joint_simple ks s k v c3 rest Hne HF E Hsep).
+    symmetry. apply joint_full; try reflexivity; try assumption.
+    rewrite E. discriminate.
+  Qed.
+
+  (* ---------------------------------------------------------------- totality *)
+
+  Lemma validated_total e s : validate e = true -> evaluate e s <> None.
+  Proof.
+    destruct e as [k o vs]. unfold validate, C19_Model.evaluate. cbn.
+    intros H. apply andb_prop in H. destruct H as [_ H].
+    destruct o; try discriminate;
+      destruct (C19_Model.key_value clean k s) as [v ok]; destruct ok; destruct vs as [|v0 [|v1 vs]];
+      cbn in *; congruence.
+  Qed.
+
+  (* ---------------------------------------------------------------- balloon types *)
+
+  Definition eval_true (s : subject) (e : expr) : bool :=
+    match evaluate e s with Some true => true | _ => false end.
+
+  Definition ns_pat_match (ns p : string) : bool := negb (snd (glob p ns)) && fst (glob p ns).
+
+  Definition def_matches (s : subject) (ns : string) (d : bdef) : bool :=
+    existsb (eval_true s) (d_match d) || existsb (ns_pat_match ns) (d_ns d).
+
+  Definition all_validated (defs : list bdef) : Prop :=
+    forall d e, List.In d defs -> List.In e (d_match d) -> validate e = true.
+
+  Lemma any_expr_validated es s : (forall e, List.In e es -> validate e = true) ->
+    any_expr es s = Some (existsb (eval_true s) es).
+  Proof.
+    induction es as [|e es IH]; cbn; intros Hv; [reflexivity|].
+    pose proof (validated_total e s (Hv e (or_introl eq_refl))) as Ht.
+    unfold eval_true at 1.
+    destruct (evaluate e s) as [[|]|]; [reflexivity| |congruence].
+    cbn. apply IH. intros e' He'. apply Hv. right. exact He'.
+  Qed.
+
+  Lemma choose_in_step d t dflt s ns : (forall e, List.In e (d_match d) -> validate e = true) ->
+    choose_in (d :: t) dflt s ns = if def_matches s ns d then ChDef d else choose_in t dflt s ns.
+  Proof.
+    intros Hv. cbn. rewrite (any_expr_validated _ s Hv). unfold def_matches, C19_Model.namespace_matches.
+    destruct (existsb (eval_true s) (d_match d)); cbn; [reflexivity|].
+    fold (ns_pat_match ns). reflexivity.
+  Qed.
+
+  Lemma choose_in_first l1 d l2 dflt s ns : all_validated (l1 ++ d :: l2)%list ->
+    (forall x, List.In x l1 -> def_matches s ns x = false) -> def_matches s ns d = true ->
+    choose_in (l1 ++ d :: l2)%list dflt s ns = ChDef d.
+  Proof.
+    induction l1 as [|a l1 IH]; intros Hv Hn Hd.
+    - cbn [app]. rewrite choose_in_step; [rewrite Hd; reflexivity|].
+      intros e He. apply (Hv d e); [left; reflexivity|exact He].
+    - cbn [app]. rewrite choose_in_step.
+      + rewrite (Hn a (or_introl eq_refl)). apply IH; [|intros x Hx; apply Hn; right; exact Hx|exact Hd].
+        intros d' e Hd' He. apply (Hv d' e); [right; exact Hd'|exact He].
+      + intros e He. apply (Hv a e); [left; reflexivity|exact He].
+  Qed.
+
+  Lemma choose_in_none defs dflt s ns : all_validated defs ->
+    (forall x, List.In x defs -> def_matches s ns x = false) -> choose_in defs dflt s ns = ChDef dflt.
+  Proof.
+    induction defs as [|a l IH]; intros Hv Hn; [reflexivity|].
+    rewrite choose_in_step.
+    - rewrite (Hn a (or_introl eq_refl)). apply IH; [|intros x Hx; apply Hn; right; exact Hx].
+      intros d' e Hd' He. apply (Hv d' e); [right; exact Hd'|exact He].
+    - intros e He. apply (Hv a e); [left; reflexivity|exact He].
+  Qed.
+
+  Lemma choose_spec defs dflt s ns : all_validated defs ->
+    (* effective annotation present: the first type carrying that name, or an error *)
+    (forall n l1 d l2, defs = (l1 ++ d :: l2)%list -> d_name d = n -> (forall x, List.In x l1 -> d_name x <> n) ->
+        choose defs dflt (Some n) s ns = ChDef d) /\
+    (forall n, (forall x, List.In x defs -> d_name x <> n) -> choose defs dflt (Some n) s ns = ChErr) /\
+    (* no annotation: first type in list order with a matching expression or namespace pattern *)
+    (forall l1 d l2, defs = (l1 ++ d :: l2)%list -> def_matches s ns d = true ->
+        (forall x, List.In x l1 -> def_matches s ns x = false) -> choose defs dflt None s ns = ChDef d) /\
+    (* otherwise the default type *)
+    ((forall x, List.In x defs -> def_matches s ns x = false) -> choose defs dflt None s ns = ChDef dflt).
+  Proof.
+    intros Hv. repeat split.
+    - intros n l1 d l2 -> Hd Hn. unfold C19_Model.choose.
+      rewrite (find_app_first (fun d => d_name d =? n) l1 d l2); [reflexivity| |apply String.eqb_eq; exact Hd].
+      intros x Hx. apply String.eqb_neq. apply Hn. exact Hx.
+    - intros n Hn. unfold C19_Model.choose. rewrite find_none_all; [reflexivity|].
+      intros x Hx. apply String.eqb_neq. apply Hn. exact Hx.
+    - intros l1 d l2 -> Hd Hn. cbn. apply choose_in_first; assumption.
+    - intros Hn. cbn. apply choose_in_none; assumption.
+  Qed.
+
+  Lemma choose_no_panic defs dflt ann s ns : all_validated defs -> choose defs dflt ann s ns <> ChPanic.
+  Proof.
+    intros Hv. destruct ann as [n|]; cbn.
+    - destruct (find _ defs); discriminate.
+    - induction defs as [|a l IH]; [discriminate|].
+      rewrite choose_in_step.
+      + destruct (def_matches s ns a); [discriminate|]. apply IH.
+        intros d' e Hd' He. apply (Hv d' e); [right; exact Hd'|exact He].
+      + intros e He. apply (Hv a e); [left; reflexivity|exact He].
+  Qed.
+
+  (* ---------------------------------------------------------------- effective configuration *)
+
+  Lemma fill_builtin_in o d : List.In d (fill_builtin o) ->
+    exists d0, (List.In d0 (o_defs o) \/ d0 = BDef reserved_name [] [] \/ d0 = BDef default_name [] []) /\
+               d_name d = d_name d0 /\ d_match d = d_match d0.
+  Proof.
+    unfold fill_builtin. intros H. apply in_map_iff in H. destruct H as [d0 [E H]].
+    exists d0. split.
+    - destruct (existsb (fun d => d_name d =? default_name) (o_defs o)).
+      + destruct (existsb (fun d => d_name d =? reserved_name) (o_defs o)).
+        * left. exact H.
+        * destruct H as [H|H]; [right; left; symmetry; exact H|left; exact H].
+      + apply in_app_or in H. destruct H as [H|H].
+        * destruct (existsb (fun d => d_name d =? reserved_name) (o_defs o)).
+          -- left. exact H.
+          -- destruct H as [H|H]; [right; left; symmetry; exact H|left; exact H].
+        * destruct H as [H|[]]. right. right. symmetry. exact H.
+    - destruct (d_name d0 =? reserved_name); subst d; split; reflexivity.
+  Qed.
+
+  Lemma eff_config_validated o defs dflt : eff_config o = Some (defs, dflt) -> all_validated defs.
+  Proof.
+    unfold eff_config. destruct (forallb _ (o_defs o)) eqn:Hall; cbn [negb]; [|discriminate].
+    destruct (_ || _); [discriminate|]. destruct (find _ _); [|discriminate].
+    intros E. inversion E; subst. clear E.
+    intros d e Hd He. apply fill_builtin_in in Hd. destruct Hd as [d0 [Hin [_ Hm]]].
+    rewrite Hm in He. destruct Hin as [Hin|[->| ->]]; [|destruct He|destruct He].
+    rewrite forallb_forall in Hall. specialize (Hall d0 Hin). rewrite forallb_forall in Hall.
+    apply Hall. exact He.
+  Qed.
+
+  Lemma eff_config_defs o defs dflt : eff_config o = Some (defs, dflt) ->
+    defs = fill_builtin o /\ List.In dflt defs /\ d_name dflt = default_name.
+  Proof.
+    unfold eff_config. destruct (forallb _ (o_defs o)); cbn [negb]; [|discriminate].
+    destruct (_ || _); [discriminate|]. destruct (find _ _) eqn:F; [|discriminate].
+    intros E. inversion E; subst. clear E. apply find_some in F. destruct F as [Hin Hn].
+    split; [reflexivity|]. split; [exact Hin|]. apply String.eqb_eq. exact Hn.
+  Qed.
+
+  Lemma namespace_matches_app ns l1 l2 :
+    namespace_matches ns (l1 ++ l2)%list = namespace_matches ns l1 || namespace_matches ns l2.
+  Proof. unfold C19_Model.namespace_matches. apply existsb_app. Qed.
+
+  (* the reserved type of an accepted configuration matches kube-system (whatever namespace the
+     literal pattern "kube-system" matches) and every configured reserved namespace pattern *)
+  Lemma reserved_matches o defs dflt : eff_config o = Some (defs, dflt) ->
+    exists r, List.In r defs /\ d_name r = reserved_name /\
+      forall ns, ns_pat_match ns kube_system = true \/ namespace_matches ns (reserved_ns_of o) = true ->
+                 namespace_matches ns (d_ns r) = true.
+  Proof.
+    intros E. apply eff_config_defs in E. destruct E as [-> _].
+    assert (exists d0, List.In d0 (if existsb (fun d => d_name d =? default_name) (o_defs o)
+                              then (if existsb (fun d => d_name d =? reserved_name) (o_defs o) then o_defs o
+                                    else BDef reserved_name [] [] :: o_defs o)
+                              else ((if existsb (fun d => d_name d =? reserved_name) (o_defs o) then o_defs o
+                                     else BDef reserved_name [] [] :: o_defs o) ++ [BDef default_name [] []])%list)
+                       /\ d_name d0 = reserved_name) as [d0 [Hin Hn]].
+    { destruct (existsb (fun d => d_name d =? reserved_name) (o_defs o)) eqn:Hr.
+      - apply existsb_exists in Hr. destruct Hr as [d0 [Hin Hn]]. apply String.eqb_eq in Hn.
+        exists d0. split; [|exact Hn].
+        destruct (existsb (fun d => d_name d =? default_name) (o_defs o)); [exact Hin|].
+        apply in_or_app. left. exact Hin.
+      - exists (BDef reserved_name [] []). split; [|reflexivity].
+        destruct (existsb (fun d => d_name d =? default_name) (o_defs o)); [left; reflexivity|].
+        apply in_or_app. left. left. reflexivity. }
+    exists (BDef (d_name d0) (d_match d0) (d_ns d0 ++ kube_system :: reserved_ns_of o)%list).
+    split; [|split].
+    - unfold fill_builtin. apply in_map_iff. exists d0. split; [|exact Hin].
+      rewrite Hn. rewrite String.eqb_refl. reflexivity.
+    - exact Hn.
+    - intros ns H. cbn [d_ns]. rewrite namespace_matches_app. apply orb_true_iff. right.
+      unfold C19_Model.namespace_matches. cbn [existsb]. fold (ns_pat_match ns kube_system).
+      apply orb_true_iff. destruct H as [H|H]; [left; exact H|right; exact H].
+  Qed.
+
+  (* no type named "reserved" configured: the implicit one is first in the order *)
+  Lemma implicit_reserved_first o defs dflt : eff_config o = Some (defs, dflt) ->
+    existsb (fun d => d_name d =? reserved_name) (o_defs o) = false ->
+    exists rest, defs = BDef reserved_name [] (kube_system :: reserved_ns_of o) :: rest.
+  Proof.
+    intros E Hr. apply eff_config_defs in E. destruct E as [-> _].
+    unfold fill_builtin. rewrite Hr.
+    destruct (existsb (fun d => d_name d =? default_name) (o_defs o)); cbn [map app];
+      rewrite String.eqb_refl; cbn [d_name d_match d_ns app]; eexists; reflexivity.
+  Qed.
+
+  Lemma implicit_reserved_chosen o defs dflt s ns : eff_config o = Some (defs, dflt) ->
+    existsb (fun d => d_name d =? reserved_name) (o_defs o) = false ->
+    ns_pat_match ns kube_system = true \/ namespace_matches ns (reserved_ns_of o) = true ->
+    exists r, choose defs dflt None s ns = ChDef r /\ d_name r = reserved_name.
+  Proof.
+    intros E Hr H. destruct (implicit_reserved_first o defs dflt E Hr) as [rest ->].
+    exists (BDef reserved_name [] (kube_system :: reserved_ns_of o)). split; [|reflexivity]. cbn.
+    unfold C19_Model.namespace_matches. cbn [existsb]. fold (ns_pat_match ns kube_system).
+    destruct H as [H|H].
+    - rewrite H. reflexivity.
+    - unfold C19_Model.namespace_matches in H. rewrite H. rewrite orb_true_r. reflexivity.
+  Qed.
+End WithStdlib.
+
+(* the literal pattern kube-system matches the namespace kube-system for the modelled Match *)
+Lemma glob_impl_kube_system : ns_pat_match glob_impl kube_system kube_system = true.
+Proof. vm_compute. reflexivity. Qed.
+
+(* ------------------------------------------------------------------ affinity weights *)
+Open Scope Z_scope.
+Ltac Zify.zify_post_hook ::= Z.to_euclidean_division_equations.
+
+Ltac bdestr :=
+  repeat match goal with |- context [if ?b then _ else _] => destruct b eqn:? end;
+  repeat match goal with H : (_ >? _) = _ |- _ => rewrite Z.gtb_ltb in H end;
+  repeat match goal with
+         | H : (_ <? _) = true |- _ => apply Z.ltb_lt in H
+         | H : (_ <? _) = false |- _ => apply Z.ltb_ge in H
+         | H : (_ =? _) = true |- _ => apply Z.eqb_eq in H
+         | H : (_ =? _) = false |- _ => apply Z.eqb_neq in H
+         end.
+
+Lemma clamp_range w : - AFF_UserWeightCutoff <= clamp_weight w <= AFF_UserWeightCutoff.
+Proof. unfold clamp_weight. cbv [AFF_UserWeightCutoff]. bdestr; lia. Qed.
+
+Lemma weight_clamped dflt w : - AFF_UserWeightCutoff <= full_weight dflt w <= AFF_UserWeightCutoff.
+Proof. unfold full_weight. apply clamp_range. Qed.
+
+Lemma weight_in_range_kept dflt w : w <> 0 -> - AFF_UserWeightCutoff <= w <= AFF_UserWeightCutoff ->
+  full_weight dflt w = if dflt <? 0 then - w else w.
+Proof.
+  intros Hw Hr. unfold full_weight, clamp_weight, wrap32. cbv [AFF_UserWeightCutoff] in *.
+  change (2^31) with 2147483648. change (2^32) with 4294967296.
+  destruct (Z.eqb_spec w 0) as [|_]; [contradiction|].
+  destruct (dflt <? 0); bdestr; lia.
+Qed.
+
+Lemma weight_default dflt : - AFF_UserWeightCutoff <= dflt <= AFF_UserWeightCutoff -> full_weight dflt 0 = dflt.
+Proof.
+  intros Hr. unfold full_weight, clamp_weight. cbv [AFF_UserWeightCutoff] in *. cbn [Z.eqb].
+  bdestr; lia.
+Qed.
